@@ -249,13 +249,15 @@ def Pure.run (ops : List Op) (p : Pure) : List Res × Pure :=
 
 /-! ## The lexer's wrappers (lexer.go:41-83) -/
 
-/-- `recordErr` (lexer.go:66): keep the first error that is not nil, not `io.EOF`, not `bufio.ErrBufferFull`. -/
+/-- `recordErr` (lexer.go:66): keep the first error that is not nil and not `io.EOF`. -/
 def recordErr (rec : Option Err) (e : Option Err) : Option Err :=
   match e with
   | none => rec
   | some .eof => rec
-  | some .bufferFull => rec
   | some e' => if rec.isNone then some e' else rec
+
+/-- `Reader.Size()` (bufio.go:67): `len(b.buf)`, a pure getter. -/
+def BR.size (b : BR) : Nat := b.cap
 
 /-- the reader-facing part of `Lexer` (lexer.go:15): `reader`, `eof`, `err`. -/
 structure Client where
@@ -268,23 +270,49 @@ structure Client where
 def Client.new (rd : Script) : Client := { b := newReader rd, eof := false, err := none }
 
 /-- one reader call of the lexer. `readChar` (lexer.go:41): no call once `eof`; a `ReadRune` error is recorded and
-sets `eof`. `peek` (lexer.go:73) records the error of `Peek`; its callers `peekChar`/`peekCharN` (lexer.go:86,99)
-return before calling once `eof` is set, the other two callers (`isIdentifierAfterDot`, `tryReadDollarTag`)
-run only while `l.ch` is `.`/`$`, i.e. never after `eof`: so no operation at all is issued once `eof`.
-Returns `none` for the skipped call. -/
+sets `eof`. `peek` (lexer.go:73) records the error of `Peek(n)` only when `n <= l.reader.Size()` (lexer.go:79): a larger
+look-ahead always answers `bufio.ErrBufferFull` and leaves a pending reader error in the slot. Its callers
+`peekChar`/`peekCharN` (lexer.go:90,103) return before calling once `eof` is set, the other two callers
+(`isIdentifierAfterDot`, `tryReadDollarTag`) run only while `l.ch` is `.`/`$`, i.e. never after `eof`: so no operation
+at all is issued once `eof`. Returns `none` for the skipped call. -/
 def Client.step (op : Op) (c : Client) : Option Res × Client :=
   if c.eof then (none, c)
   else
     let r := DC.Bufio.step op c.b
-    let c' := { c with b := r.2, err := recordErr c.err r.1.err }
     match op with
-    | .readRune => (some r.1, if r.1.err.isSome then { c' with eof := true } else c')
-    | .peek _ => (some r.1, c')
+    | .readRune =>
+      let c' := { c with b := r.2, err := recordErr c.err r.1.err }
+      (some r.1, if r.1.err.isSome then { c' with eof := true } else c')
+    | .peek n =>
+      (some r.1, { c with b := r.2, err := if n ≤ r.2.size then recordErr c.err r.1.err else c.err })
 
 def Client.run (ops : List Op) (c : Client) : Client :=
   match ops with
   | [] => c
   | op :: rest => Client.run rest (c.step op).2
+
+/-- `recordErr` between the first fix and commit efe7a9c82: `bufio.ErrBufferFull` was filtered too. -/
+def recordErrMid (rec : Option Err) (e : Option Err) : Option Err :=
+  match e with
+  | none => rec
+  | some .eof => rec
+  | some .bufferFull => rec
+  | some e' => if rec.isNone then some e' else rec
+
+/-- the code between the first fix and commit efe7a9c82: every `ReadRune`/`Peek` error goes through `recordErrMid`. -/
+def Client.stepMid (op : Op) (c : Client) : Option Res × Client :=
+  if c.eof then (none, c)
+  else
+    let r := DC.Bufio.step op c.b
+    let c' := { c with b := r.2, err := recordErrMid c.err r.1.err }
+    match op with
+    | .readRune => (some r.1, if r.1.err.isSome then { c' with eof := true } else c')
+    | .peek _ => (some r.1, c')
+
+def Client.runMid (ops : List Op) (c : Client) : Client :=
+  match ops with
+  | [] => c
+  | op :: rest => Client.runMid rest (c.stepMid op).2
 
 /-- the code before the fix commit: `readChar` folded every error into `eof`, `Peek` errors were dropped,
 `Lexer.err` did not exist (so `Parse` could only answer nil). -/
